@@ -347,7 +347,7 @@ prop(
 )
 prop(
     id="C13", module="Properties.C13", vfile="Properties/C13.v", level="proof", subcmd="c13",
-    theorems=["C13_replay_applies_only_valid_consecutive", "C13_accepted_record_is_complete_and_checksummed", "C13_nothing_after_invalid", "C13_out_of_sequence_header_stops_replay",
+    theorems=["C13_accepted_index_action_writes_inside_the_file", "C13_accepted_counter_action_writes_inside_the_file", "C13_replay_applies_only_valid_consecutive", "C13_accepted_record_is_complete_and_checksummed", "C13_nothing_after_invalid", "C13_out_of_sequence_header_stops_replay",
               "C13_scanner_total", "C13_surviving_prefix_gives_prefix_state", "C13_older_prefix_over_newer_tables_refuted", "C13_complete_record_is_accepted", "C13_torn_record_never_applied", "C13_cut_inside_checksum_is_end_of_file"],
     counts={"quick": 160, "thorough": 6000, "search": 640},
     rule=CRASH_RULE + "; C13 images are taken at record boundaries and then damaged by one of: truncation at a random offset, one flipped bit, 2-16 bytes of garbage, "
